@@ -1,4 +1,227 @@
-//! Validation of the reference models against third sources. Run by `vf setup`.
+//! Validation of the reference models against third sources (PQClean C code, vendored). Run by
+//! `vf setup`; a failure here is a machinery failure and blocks every verdict.
+
+use crate::pq;
+use crate::refmodel::samplerz as rs;
+use crate::refmodel::{codec, keccak, keycodec, sig_len, sigma_min, verify as refverify, SIGMA_MAX};
+
+fn fail(msg: &str) -> i32 {
+    println!("SELFTEST FAILED: {}", msg);
+    1
+}
+
+fn pattern(len: usize, k: u64) -> Vec<u8> {
+    (0..len).map(|i| ((i as u64).wrapping_mul(2654435761).wrapping_add(k.wrapping_mul(40503)) >> 7) as u8).collect()
+}
+
 pub fn run() -> i32 {
+    let mut checks = 0u64;
+    // 1. SHAKE-256
+    for len in (0..300).step_by(7).chain([135, 136, 137, 271, 272, 273, 1000]) {
+        let m = pattern(len, len as u64);
+        for outlen in [1usize, 32, 135, 136, 137, 500] {
+            checks += 1;
+            if keccak::shake256(&m, outlen) != pq::shake256_c(&m, outlen) {
+                return fail(&format!("SHAKE-256 differs from fips202.c at input length {} output length {}", len, outlen));
+            }
+        }
+    }
+    // 2. HashToPoint
+    for len in [0usize, 1, 40, 41, 45, 136, 300] {
+        for k in 0..8u64 {
+            let m = pattern(len, k);
+            checks += 2;
+            let a: Vec<i64> = pq::f512::hash_to_point(&m).iter().map(|&x| x as i64).collect();
+            if a != keccak::hash_to_point(&m, 512, None) {
+                return fail("HashToPoint (512) differs from PQClean hash_to_point_vartime");
+            }
+            let a: Vec<i64> = pq::f1024::hash_to_point(&m).iter().map(|&x| x as i64).collect();
+            if a != keccak::hash_to_point(&m, 1024, None) {
+                return fail("HashToPoint (1024) differs from PQClean hash_to_point_vartime");
+            }
+        }
+    }
+    // 3. compression codec on the common domain |x| <= 2047
+    for k in 0..40u64 {
+        for n in [512usize, 1024] {
+            let mag = [3i64, 130, 300, 700, 2047][(k % 5) as usize];
+            let v: Vec<i64> = (0..n as u64).map(|i| (((i * 7919 + k * 104729) % (2 * mag as u64 + 1)) as i64) - mag).collect();
+            let v16: Vec<i16> = v.iter().map(|&x| x as i16).collect();
+            let l = sig_len(n) - 41;
+            let ours = codec::compress(&v, l);
+            let theirs = if n == 512 { pq::f512::comp_encode(&v16, l) } else { pq::f1024::comp_encode(&v16, l) };
+            checks += 1;
+            match (&ours, &theirs) {
+                (None, None) => {}
+                (Some(o), Some(t)) => {
+                    if o[..t.len()] != t[..] || o[t.len()..].iter().any(|&b| b != 0) {
+                        return fail("Algorithm 17 differs from PQClean comp_encode");
+                    }
+                    let back = if n == 512 { pq::f512::comp_decode(t) } else { pq::f1024::comp_decode(t) };
+                    match back {
+                        Some((x, used)) if used == t.len() && x == v16 => {}
+                        _ => return fail("PQClean comp_decode does not invert comp_encode"),
+                    }
+                    if codec::decompress(o, n) != Some(v.clone()) {
+                        return fail("Algorithm 18 does not invert Algorithm 17");
+                    }
+                }
+                _ => return fail("Algorithm 17 and PQClean comp_encode disagree on whether the vector fits"),
+            }
+        }
+    }
+    // 4. key codecs
+    for k in 0..8u64 {
+        for n in [512usize, 1024] {
+            let h: Vec<i64> = (0..n as u64).map(|i| ((i * 7907 + k * 31) % 12289) as i64).collect();
+            let h16: Vec<u16> = h.iter().map(|&x| x as u16).collect();
+            let ours = keycodec::pk_encode(&h);
+            let theirs = if n == 512 { pq::f512::modq_encode(&h16) } else { pq::f1024::modq_encode(&h16) };
+            checks += 1;
+            if theirs.as_deref() != Some(&ours[1..]) {
+                return fail("public-key codec differs from PQClean modq_encode");
+            }
+            // a field >= q must be rejected by both
+            let mut bad = ours.clone();
+            bad[1] = 0xff;
+            bad[2] |= 0xfc;
+            let pqdec = if n == 512 { pq::f512::modq_decode(&bad[1..]) } else { pq::f1024::modq_decode(&bad[1..]) };
+            if keycodec::pk_decode(&bad, n).is_some() || pqdec.is_some() {
+                return fail("a public-key field >= q is not rejected by both decoders");
+            }
+            let w = keycodec::fg_bits(n);
+            let lim = (1i64 << (w - 1)) - 1;
+            let f: Vec<i64> = (0..n as i64).map(|i| ((i * 5 + k as i64) % (2 * lim + 1)) - lim).collect();
+            let g: Vec<i64> = (0..n as i64).map(|i| ((i * 11 + 3 * k as i64) % (2 * lim + 1)) - lim).collect();
+            let cf: Vec<i64> = (0..n as i64).map(|i| ((i * 13 + k as i64) % 255) - 127).collect();
+            let sk = keycodec::sk_encode(&f, &g, &cf).unwrap();
+            let f8: Vec<i8> = f.iter().map(|&x| x as i8).collect();
+            let g8: Vec<i8> = g.iter().map(|&x| x as i8).collect();
+            let cf8: Vec<i8> = cf.iter().map(|&x| x as i8).collect();
+            let enc = |x: &[i8], bits: u32| if n == 512 { pq::f512::trim_i8_encode(x, bits) } else { pq::f1024::trim_i8_encode(x, bits) };
+            let mut theirs = vec![sk[0]];
+            for (p, bits) in [(&f8, w as u32), (&g8, w as u32), (&cf8, 8u32)] {
+                match enc(p, bits) {
+                    Some(b) => theirs.extend_from_slice(&b),
+                    None => return fail("PQClean trim_i8_encode failed"),
+                }
+            }
+            checks += 1;
+            if theirs != sk {
+                return fail("secret-key codec differs from PQClean trim_i8_encode");
+            }
+            if keycodec::sk_decode(&sk, n) != Some((f.clone(), g.clone(), cf.clone())) {
+                return fail("secret-key codec does not round trip");
+            }
+        }
+    }
+    // 5. verify on reference-made signatures (accept) and corruptions (reject)
+    for k in 0..4u64 {
+        let seed = format!("selftest-{}", k).into_bytes();
+        if let Some((pk, sk)) = pq::f512::keypair(&seed) {
+            let msg = pattern(33, k);
+            if let Some(sig) = pq::f512::sign(&seed, &msg, &sk) {
+                let h: Vec<i64> = keycodec::pk_decode(&pk, 512).unwrap();
+                let ours = pq::pq_sig_to_rust(&sig, sig_len(512)).unwrap();
+                checks += 2;
+                if !refverify::verify(512, &msg, &ours[1..41], &ours[41..], &h).accepted() {
+                    return fail("reference Algorithm 16 rejects a PQClean signature");
+                }
+                let mut bad = msg.clone();
+                bad[0] ^= 1;
+                if refverify::verify(512, &bad, &ours[1..41], &ours[41..], &h).accepted() || pq::f512::verify(&sig, &bad, &pk) {
+                    return fail("a signature verifies for a different message");
+                }
+            } else {
+                return fail("PQClean signing failed");
+            }
+        } else {
+            return fail("PQClean key generation failed");
+        }
+    }
+    // 6. RCDT and the sampler against PQClean's sampler on identical bytes
+    for i in 0..18 {
+        for (u, want) in [(rs::RCDT[i] - 1, i as i32 + 1), (rs::RCDT[i], i as i32)] {
+            let mut b = rs::u_to_bytes(u);
+            b.reverse(); // PQClean reads the 72-bit value little-endian
+            checks += 1;
+            if pq::f512::gaussian0(&b) != want || rs::base_sampler_u(u) != want as i64 {
+                return fail(&format!("RCDT[{}] differs from PQClean's table", i));
+            }
+        }
+    }
+    let mus = [-91.9f64, -0.5, 0.0, 0.25, 0.999, 7.93, 300.4];
+    // sigma' = sigma_min exactly (ccs = 1) is excluded from this comparison: PQClean's fpr_expm_p63 shifts
+    // trunc(ccs * 2^63) left by one, which wraps to 0 for ccs = 1.0, a quirk the specification's
+    // ApproxExp (floor(2^63 ccs), no shift) does not have; honest trees never have a leaf equal to sigma_min
+    let sigmas = [sigma_min(512) * 1.000001, 1.5, 1.7, SIGMA_MAX];
+    let mut lcg = 0x1234_5678_9abc_def0u64;
+    for &mu in &mus {
+        for &sg in &sigmas {
+            for _case in 0..200 {
+                // a stream of iterations from a fixed LCG (validation data, not exploration)
+                let mut ours_iters: Vec<[u8; 17]> = vec![];
+                let mut pq_stream: Vec<u8> = vec![];
+                let mut result: Option<i64> = None;
+                for _ in 0..20 {
+                    let mut it = [0u8; 17];
+                    for b in it.iter_mut() {
+                        lcg = lcg.wrapping_mul(6364136223846793005).wrapping_add(1442695040888963407);
+                        *b = (lcg >> 33) as u8;
+                    }
+                    // bias towards small z0 so that acceptance happens
+                    it[0] = 0xff;
+                    ours_iters.push(it);
+                    let mut rev: Vec<u8> = it[..9].to_vec();
+                    rev.reverse();
+                    pq_stream.extend_from_slice(&rev);
+                    pq_stream.push(it[9]);
+                    // BerExp in PQClean is lazy: it reads bytes until the first difference
+                    let z0 = rs::base_sampler(&it[..9].try_into().unwrap());
+                    let b = (it[9] & 1) as i64;
+                    let r = mu - mu.floor();
+                    let x = rs::sampler_x(r, sg, z0, b);
+                    let z = rs::ber_exp_threshold(x, sigma_min(512) * (1.0 / sg));
+                    let mut used = 0;
+                    for k in 0..7 {
+                        used += 1;
+                        if it[10 + k] != ((z >> (56 - 8 * k)) & 0xff) as u8 {
+                            break;
+                        }
+                    }
+                    pq_stream.extend_from_slice(&it[10..10 + used]);
+                    match rs::sampler_step(mu, sg, sigma_min(512), &it) {
+                        rs::Step::Return(v) => {
+                            result = Some(v);
+                            break;
+                        }
+                        rs::Step::Tie { .. } => {
+                            result = None;
+                            break;
+                        }
+                        rs::Step::Reject => {}
+                    }
+                }
+                if let Some(want) = result {
+                    checks += 1;
+                    match pq::f512::sampler(mu, sg, sigma_min(512), &pq_stream) {
+                        Some((got, used)) if got as i64 == want && used == pq_stream.len() => {}
+                        other => {
+                            for it in &ours_iters {
+                                let z0 = rs::base_sampler(&it[..9].try_into().unwrap());
+                                let b = (it[9] & 1) as i64;
+                                let x = rs::sampler_x(mu - mu.floor(), sg, z0, b);
+                                let z = rs::ber_exp_threshold(x, sigma_min(512) * (1.0 / sg));
+                                println!("iter {:02x?} z0={} b={} x={} thr={:016x} step={:?}", it, z0, b, x, z, rs::sampler_step(mu, sg, sigma_min(512), it));
+                            }
+                            println!("pq stream {:02x?}", pq_stream);
+                            return fail(&format!("SamplerZ reference ({}) differs from PQClean's sampler ({:?}) at mu={} sigma={}", want, other, mu, sg));
+                        }
+                    }
+                }
+            }
+        }
+    }
+    println!("selftest ok: {} comparisons of the reference models with PQClean", checks);
     0
 }
